@@ -15,11 +15,14 @@
 // build of engine B's runtime is not subject to --wrap: there the plain names already are the real functions.
 #if defined(SIMRT_WRAP_MALLOC) && !defined(SIMRT_SO)
 extern "C" void *__real_malloc(size_t); extern "C" void *__real_calloc(size_t, size_t); extern "C" void *__real_realloc(void *, size_t); extern "C" void __real_free(void *);
+extern "C" void *__real_aligned_alloc(size_t, size_t); extern "C" int __real_posix_memalign(void **, size_t, size_t);
 #define RAW_MALLOC __real_malloc
 #define RAW_FREE __real_free
+#define RAW_ALIGNED __real_aligned_alloc
 #else
 #define RAW_MALLOC std::malloc
 #define RAW_FREE std::free
+#define RAW_ALIGNED std::aligned_alloc
 #endif
 
 namespace simrt {
@@ -120,7 +123,7 @@ void *do_alloc(size_t size, bool array, size_t align, bool nothrow, bool cstyle 
     const bool over_aligned = align > alignof(std::max_align_t);
     if (over_aligned) {
         size_t rounded = (size + align - 1) / align * align;
-        p = std::aligned_alloc(align, rounded ? rounded : align);
+        p = RAW_ALIGNED(align, rounded ? rounded : align);
     } else {
         p = RAW_MALLOC(size + 2 * RZ + (size ? 0 : 1));
         if (p && RZ) { std::memset(p, RZ_BYTE, RZ); p = (char *)p + RZ; std::memset((char *)p + size, RZ_BYTE, RZ); }
@@ -268,6 +271,10 @@ void __wrap_free(void *p) {
     if (simrt::heap_lookup(p, &bi) || simrt::heap_in_quarantine(p)) { do_free(p, false, true); return; }
     REAL(free)(p);                                                                                        // somebody else's (libc, libstdc++ internals)
 }
+char *__wrap_strdup(const char *t) { size_t n = std::strlen(t) + 1; char *p = (char *)__wrap_malloc(n); if (p) std::memcpy(p, t, n); return p; }
+char *__wrap_strndup(const char *t, size_t m) { size_t n = strnlen(t, m); char *p = (char *)__wrap_malloc(n + 1); if (p) { std::memcpy(p, t, n); p[n] = 0; } return p; }
+void *__wrap_aligned_alloc(size_t al, size_t n) { if (simrt::g_in_sut <= 0) return REAL(aligned_alloc)(al, n); return do_alloc(n, false, al, true, true); }
+int __wrap_posix_memalign(void **out, size_t al, size_t n) { if (simrt::g_in_sut <= 0) return REAL(posix_memalign)(out, al, n); void *p = do_alloc(n, false, al, true, true); if (!p) return 12 /*ENOMEM*/; *out = p; return 0; }
 void *__wrap_realloc(void *p, size_t n) {
     simrt::BlockInfo bi;
     const bool ours = p && simrt::heap_lookup(p, &bi);
